@@ -153,6 +153,14 @@ def _handle_ConnectionUp (event):
               kw={'force_dpid':event.dpid})
 
 
+def _handle_PortStatus (event):
+  # A port that is (re)created comes with its default configuration -
+  # flooding enabled - whatever we last set on a port with that number.
+  # Forget what we think we know so that the next update sets it again.
+  if event.added or event.deleted:
+    _prev[event.dpid].pop(event.port, None)
+
+
 def _handle_LinkEvent (event):
   # When links change, update spanning tree
 
@@ -270,6 +278,7 @@ def launch (no_flood = False, hold_down = False):
 
   def start_spanning_tree ():
     core.openflow.addListenerByName("ConnectionUp", _handle_ConnectionUp)
+    core.openflow.addListenerByName("PortStatus", _handle_PortStatus)
     core.openflow_discovery.addListenerByName("LinkEvent", _handle_LinkEvent)
     log.debug("Spanning tree component ready")
   core.call_when_ready(start_spanning_tree, "openflow_discovery")
